@@ -994,11 +994,11 @@ func (f *c11Fixture) settle(room string, inRoom *bool) (events []string, respons
 			wait = time.Until(deadline)
 		case wantP && !gotP:
 			if pDeadline.IsZero() {
-				pDeadline = time.Now().Add(150 * time.Millisecond)
+				pDeadline = time.Now().Add(300 * time.Millisecond)
 			}
 			wait = time.Until(pDeadline)
 		default:
-			wait = 3 * time.Millisecond
+			wait = 5 * time.Millisecond
 		}
 		var m *ServerMessage
 		var err error
